@@ -11,7 +11,12 @@ type CheckDef struct {
 	Special func(t *testing.T, job *Job, res *Result) *Result
 }
 
-func logHash(s *Sim) string { return fmt.Sprintf("%016x/%d", s.logHash, s.nEvents) }
+func logHash(s *Sim) string {
+	if s.frozen {
+		return fmt.Sprintf("%016x/%d", s.schedHash, s.schedEvents)
+	}
+	return fmt.Sprintf("%016x/%d", s.logHash, s.nEvents)
+}
 
 func profileFor(check, tier, variant string) *CheckDef {
 	thorough := tier == "thorough"
